@@ -165,6 +165,12 @@ class MailDriver:
             async with orig_rao(self, mbox):
                 d = holder[0]
                 if d is not None:
+                    # the admission state is a snapshot of every mailbox: let a resync that another
+                    # mailbox's management task is in the middle of finish first
+                    for _ in range(2000):
+                        if d._resyncing <= 0:
+                            break
+                        await asyncio.sleep(0.001)
                     d._on_admit(self, mbox)
                 yield
 
